@@ -193,10 +193,30 @@ class SymStr(object):
         return not self._cmp(o)
 
     def __hash__(self):
-        # constant: dict/set membership of symbolic strings is decided by __eq__ (character-wise branches);
-        # a concrete str key has a different hash, so only use symbolic strings against symbolic keys
-        c = self.concrete()
-        return hash(c) if c is not None else 0
+        """Using a symbolic string as a dict/set key: its characters are concretised by forking over their
+        (small) domains, so that the hash agrees with the hash of the equal concrete str."""
+        out = []
+        for c in self.e:
+            if isinstance(c, str):
+                out.append(c)
+                continue
+            ctx = core.cur()
+            if c.name is not None:
+                dom = ctx.char_dom[c.name]
+                if size(dom) > 64:
+                    raise core.Unsupported("symbolic string with a large character domain used as a dict key")
+                cands = [k for lo, hi in dom for k in range(lo, hi + 1)]
+            else:
+                cands = list(range(65, 91)) + list(range(97, 123)) + list(range(48, 58)) + [32, 43, 45, 46]
+            val = None
+            for k in cands:
+                if char_test(c, [(k, k)]):
+                    val = k
+                    break
+            if val is None:
+                raise core.Unsupported("cannot concretise a symbolic character used in a dict key")
+            out.append(chr(val))
+        return hash("".join(out))
 
     def eq_term(self, o):
         """z3 Bool: this string equals `o` (no forking) -- for obligations."""
